@@ -26,7 +26,8 @@ type seqDoc struct {
 }
 
 type sessOp struct {
-	Op   string   `json:"op"` // cadd radd raddv rset vmut rord rbody pmut send sendretry sendmp
+	Op   string   `json:"op"`          // cadd cclone radd raddv rset vmut rord rbody pmut send sendretry
+	C    int      `json:"c,omitempty"` // cadd: the client added to; cclone: the client cloned
 	I    int      `json:"i,omitempty"`
 	Form []kvs    `json:"form,omitempty"`
 	K    string   `json:"k,omitempty"`
@@ -85,6 +86,7 @@ func (g *gen) sessionCases() {
 	for s := 0; s < n; s++ {
 		marshal := s%4 == 3
 		nreq := rng.Range(1, 3)
+		nclients := 1
 		var ops []sessOp
 		steps := rng.Range(3, 9)
 		sends := 0
@@ -110,11 +112,38 @@ func (g *gen) sessionCases() {
 				}
 			}
 		} else {
+			if s%5 == 1 {
+				// a key built up value by value (len 3, cap 4), a clone, adds on clone and original in either
+				// order, then forms through both: Clone must not share the value slices
+				k := hk.Pick(rng, keys[:3])
+				for j := rng.Range(1, 4); j > 0; j-- {
+					ops = append(ops, sessOp{Op: "cadd", C: 0, Form: []kvs{{K: k, Vs: []string{val()}}}})
+				}
+				ops = append(ops, sessOp{Op: "cclone", C: 0})
+				nclients++
+				a, b := 1, 0
+				if rng.Bool() {
+					a, b = 0, 1
+				}
+				ops = append(ops, sessOp{Op: "cadd", C: a, Form: []kvs{{K: k, Vs: []string{val()}}}},
+					sessOp{Op: "cadd", C: b, Form: []kvs{{K: k, Vs: []string{val()}}}},
+					sessOp{Op: "send", I: 0}, sessOp{Op: "send", I: nreq - 1})
+				sends += 2
+			}
 			for j := 0; j < steps; j++ {
 				i := rng.Intn(nreq)
-				switch rng.Intn(12) {
+				switch rng.Intn(14) {
+				case 12:
+					if nclients < 3 {
+						ops = append(ops, sessOp{Op: "cclone", C: rng.Intn(nclients)})
+						nclients++
+					} else {
+						ops = append(ops, sessOp{Op: "cadd", C: rng.Intn(nclients), Form: []kvs{{K: hk.Pick(rng, keys[:3]), Vs: []string{val()}}}})
+					}
+				case 13: // one value at a time: the slices of multi-valued keys grow with spare capacity
+					ops = append(ops, sessOp{Op: "cadd", C: rng.Intn(nclients), Form: []kvs{{K: hk.Pick(rng, keys[:3]), Vs: []string{val()}}}})
 				case 0:
-					ops = append(ops, sessOp{Op: "cadd", Form: smallForm(rng.Range(1, 2))})
+					ops = append(ops, sessOp{Op: "cadd", C: rng.Intn(nclients), Form: smallForm(rng.Range(1, 2))})
 				case 1:
 					ops = append(ops, sessOp{Op: "radd", I: i, Form: smallForm(rng.Range(1, 2))})
 				case 2, 3:
@@ -127,7 +156,7 @@ func (g *gen) sessionCases() {
 					if rng.Chance(40) {
 						ops = append(ops, sessOp{Op: "rord", I: i, KVs: []string{hk.Pick(rng, keys), val()}})
 					} else {
-						ops = append(ops, sessOp{Op: "cadd", Form: smallForm(1)})
+						ops = append(ops, sessOp{Op: "cadd", C: rng.Intn(nclients), Form: smallForm(1)})
 					}
 				case 7:
 					ops = append(ops, sessOp{Op: "sendretry", I: i})
@@ -146,6 +175,31 @@ func (g *gen) sessionCases() {
 		if sends == 0 {
 			ops = append(ops, sessOp{Op: "send", I: 0})
 		}
+		// every request belongs to one of the clients that exist when it is first used
+		owners := make([]int, nreq)
+		for i := range owners {
+			owners[i] = -1
+		}
+		have := 1
+		for _, o := range ops {
+			switch o.Op {
+			case "cclone":
+				have++
+			case "cadd", "vmut", "pmut":
+			default:
+				if owners[o.I] < 0 {
+					owners[o.I] = rng.Intn(have)
+				}
+			}
+		}
+		for i := range owners {
+			if owners[i] < 0 {
+				owners[i] = 0
+			}
+		}
+		if have > 1 {
+			r.Count("session:with-clones")
+		}
 		r.Count(map[bool]string{true: "session:payload", false: "session:form"}[marshal])
 		// some requests of a form session are multipart for their whole life (EnableForceMultipart)
 		mp := make([]bool, nreq)
@@ -154,26 +208,37 @@ func (g *gen) sessionCases() {
 				mp[i] = rng.Chance(25)
 			}
 		}
-		g.oneSession(nreq, mp, ops)
+		g.oneSession(nreq, owners, mp, ops)
 	}
 }
 
-func (g *gen) oneSession(nreq int, mp []bool, ops []sessOp) {
+func (g *gen) oneSession(nreq int, owners []int, mp []bool, ops []sessOp) {
 	r := g.r
-	in := map[string]interface{}{"kind": "session", "requests": nreq, "multipart": mp, "ops": ops}
+	in := map[string]interface{}{"kind": "session", "requests": nreq, "owners": owners, "multipart": mp, "ops": ops}
 	c := req.C()
-	defer c.GetTransport().CloseIdleConnections()
+	clients := []*req.Client{c}
+	clientBooksOf := []map[string][]string{{}}
+	defer func() {
+		for _, cl := range clients {
+			cl.GetTransport().CloseIdleConnections()
+		}
+	}()
 	rqs := make([]*req.Request, nreq)
 	books := make([]*reqBooks, nreq)
 	for i := range rqs {
-		rqs[i] = c.R()
-		if mp[i] {
-			rqs[i].EnableForceMultipart()
-		}
 		books[i] = &reqBooks{own: map[string][]string{}}
 	}
+	// a request is created from its client when it is first used
+	need := func(i int) *req.Request {
+		if rqs[i] == nil {
+			rqs[i] = clients[owners[i]].R()
+			if mp[i] {
+				rqs[i].EnableForceMultipart()
+			}
+		}
+		return rqs[i]
+	}
 	shared := url.Values{"shared": {"s0"}} // the caller's own url.Values, handed to several requests
-	clientBooks := map[string][]string{}
 	payload := &seqDoc{Tag: "payload"}
 	var coqOps, coqObs []string
 	fail := func(sig, what string, got, want interface{}) {
@@ -184,7 +249,7 @@ func (g *gen) oneSession(nreq int, mp []bool, ops []sessOp) {
 	send := func(i int, retryVer int, retry bool) []*arrived {
 		x := g.nextX()
 		u := g.o.url(x)
-		rq := rqs[i]
+		rq := need(i)
 		if retry {
 			u += "&first=503"
 			var fired int32
@@ -234,35 +299,39 @@ func (g *gen) oneSession(nreq int, mp []bool, ops []sessOp) {
 		}
 		switch op.Op {
 		case "cadd":
-			c.SetCommonFormDataFromValues(valuesOfForm(op.Form))
+			clients[op.C].SetCommonFormDataFromValues(valuesOfForm(op.Form))
 			for _, e := range op.Form {
-				clientBooks[e.K] = append(clientBooks[e.K], e.Vs...)
+				clientBooksOf[op.C][e.K] = append(clientBooksOf[op.C][e.K], e.Vs...)
 			}
-			coqOps = append(coqOps, "SClientAdd "+cForm(sortedForm(op.Form)))
+			coqOps = append(coqOps, fmt.Sprintf("SClientAdd %d %s", op.C, cForm(sortedForm(op.Form))))
+		case "cclone":
+			clients = append(clients, clients[op.C].Clone())
+			clientBooksOf = append(clientBooksOf, cloneVals(clientBooksOf[op.C]))
+			coqOps = append(coqOps, fmt.Sprintf("SClone %d", op.C))
 		case "radd", "raddv":
 			f := op.Form
 			if op.Op == "raddv" {
-				rqs[op.I].SetFormDataFromValues(shared)
+				need(op.I).SetFormDataFromValues(shared)
 				f = formOfValues(shared)
 			} else {
-				rqs[op.I].SetFormDataFromValues(valuesOfForm(f))
+				need(op.I).SetFormDataFromValues(valuesOfForm(f))
 			}
 			for _, e := range f {
 				books[op.I].own[e.K] = append(books[op.I].own[e.K], e.Vs...)
 			}
 			coqOps = append(coqOps, fmt.Sprintf("SReqAdd %d %s", op.I, cForm(sortedForm(f))))
 		case "rset":
-			rqs[op.I].SetFormData(map[string]string{op.K: op.V})
+			need(op.I).SetFormData(map[string]string{op.K: op.V})
 			books[op.I].own[op.K] = []string{op.V}
 			coqOps = append(coqOps, fmt.Sprintf("SReqSet %d %s %s", op.I, cs(op.K), cs(op.V)))
 		case "vmut": // the caller goes on using its own map: no request may notice
 			shared.Add(op.K, op.V)
 		case "rord":
-			rqs[op.I].SetOrderedFormData(op.KVs...)
+			need(op.I).SetOrderedFormData(op.KVs...)
 			books[op.I].ordered = append(books[op.I].ordered, op.KVs...)
 			coqOps = append(coqOps, fmt.Sprintf("SReqOrdered %d %s", op.I, csList(op.KVs)))
 		case "rbody":
-			rqs[op.I].SetBody(payload)
+			need(op.I).SetBody(payload)
 			books[op.I].body = true
 			coqOps = append(coqOps, fmt.Sprintf("SReqBody %d", op.I))
 		case "pmut":
@@ -291,7 +360,7 @@ func (g *gen) oneSession(nreq int, mp []bool, ops []sessOp) {
 				for i := 0; i+1 < len(b.ordered); i += 2 {
 					want[b.ordered[i]] = append(want[b.ordered[i]], b.ordered[i+1])
 				}
-				for _, m := range []map[string][]string{b.own, clientBooks} {
+				for _, m := range []map[string][]string{b.own, clientBooksOf[owners[op.I]]} {
 					for key, vs := range m {
 						if len(vs) > 0 {
 							want[key] = append(want[key], vs...)
@@ -351,14 +420,18 @@ func (g *gen) oneSession(nreq int, mp []bool, ops []sessOp) {
 	}
 	var ks []string
 	for _, o := range ops {
-		ks = append(ks, fmt.Sprintf("%s/%d/%v/%s/%s/%v/%d", o.Op, o.I, o.Form, o.K, o.V, o.KVs, o.Ver))
+		ks = append(ks, fmt.Sprintf("%s/%d/%d/%v/%s/%s/%v/%d", o.Op, o.C, o.I, o.Form, o.K, o.V, o.KVs, o.Ver))
 	}
 	sort.Strings(nil)
-	key := "session|" + fmt.Sprint(nreq, mp) + "|" + strings.Join(ks, ";")
+	key := "session|" + fmt.Sprint(nreq, owners, mp) + "|" + strings.Join(ks, ";")
 	if failed {
 		r.Add(hk.Case{Desc: in}, key, true)
 		return
 	}
-	coq := fmt.Sprintf("SessionCase %d %s %s", nreq, hk.CoqList(coqOps), hk.CoqList(coqObs))
+	var ow []string
+	for _, o := range owners {
+		ow = append(ow, hk.CoqNat(o))
+	}
+	coq := fmt.Sprintf("SessionCase %s %s %s", hk.CoqList(ow), hk.CoqList(coqOps), hk.CoqList(coqObs))
 	r.Add(hk.Case{Coq: coq, Desc: in}, key, true)
 }
